@@ -164,7 +164,7 @@ def _history_replay(payload, repo, tmp):
 def replay_payload(payload, repo):
     """Re-run the recorded call under every recorded allocator state (single call first; if the
     violation needs the heap state its history created, the history prefix)."""
-    tmp = tempfile.mkdtemp(prefix="c14replay_", dir=os.environ.get("VERIF_TMP", "/var/tmp"))
+    tmp = tempfile.mkdtemp(prefix="c14replay_", dir=driver.tmp_root())
     try:
         ok, text = _single_call_replay(payload, repo, tmp)
         if ok or ok is None:
@@ -209,7 +209,7 @@ def main():
     t0 = time.monotonic()
     print(f"C14 check: tier={tier} VERIF_SEED={seed} repo={repo} nproc={args.nproc}")
     sys.stdout.flush()
-    tmp = tempfile.mkdtemp(prefix="c14_", dir=os.environ.get("VERIF_TMP", "/var/tmp"))
+    tmp = tempfile.mkdtemp(prefix="c14_", dir=driver.tmp_root())
     try:
         variants, done, errors = run_workers(seed, conf, tmp, repo, args.nproc)
         rc = report(seed, tier, conf, variants, done, errors, time.monotonic() - t0, repo, not args.no_evidence)
